@@ -105,7 +105,21 @@ RULES = {
                         {"s": 0, "op": "batch_eval", "es": ["x", "BVV(3, 4)"], "n": 5, "extra": ["SLT(y, 0)"]},
                         {"s": 0, "op": "solution", "e": "x", "v": 2, "extra": []}, {"s": 0, "op": "solution", "e": "x", "v": 9, "extra": []},
                         {"s": 0, "op": "is_true", "e": "ULT(x, 3)", "extra": []}, {"s": 0, "op": "is_false", "e": "x == 5", "extra": []}],
+    # everything about x is known (all values, the extrema); downsize(); ONE small question (a single model comes back); then
+    # everything is asked again - whatever was remembered about `all values are known` must still be true of what is cached now
+    "exhausted-then-downsize": [A("Or(x == 1, x == 2)"), A("ULE(x, 11)"), {"s": 0, "op": "eval", "e": "x", "n": 20, "extra": []},
+                                {"s": 0, "op": "max", "e": "x & 3", "signed": False, "extra": []}, {"s": 0, "op": "downsize"},
+                                {"s": 0, "op": "eval", "e": "x", "n": 1, "extra": []}, {"s": 0, "op": "eval", "e": "x", "n": 20, "extra": []},
+                                {"s": 0, "op": "min", "e": "x", "signed": False, "extra": []}, {"s": 0, "op": "max", "e": "x", "signed": False, "extra": []},
+                                {"s": 0, "op": "max", "e": "x & 3", "signed": False, "extra": []}],
+    "extrema-then-downsize": [A("UGE(x, 8)"), A("ULE(x, 11)"), {"s": 0, "op": "min", "e": "x", "signed": False, "extra": []},
+                              {"s": 0, "op": "max", "e": "x", "signed": True, "extra": []}, {"s": 0, "op": "downsize"},
+                              {"s": 0, "op": "solution", "e": "x", "v": 9, "extra": []}, {"s": 0, "op": "min", "e": "x", "signed": False, "extra": []},
+                              {"s": 0, "op": "max", "e": "x", "signed": True, "extra": []}, {"s": 0, "op": "batch_eval", "es": ["x"], "n": 20, "extra": []}],
 }
+
+WEIGHTS = {"add": 22, "satisfiable": 8, "eval": 14, "batch_eval": 6, "min": 11, "max": 11, "solution": 8, "is_true": 2, "is_false": 2,
+           "simplify": 4, "downsize": 4, "branch": 5}
 
 
 def rule_jobs():
@@ -123,7 +137,33 @@ def random_jobs(ctx, mult=1):
     jobs = []
     for cls, k in n.items():
         for i in range(k * mult):
-            jobs.append({"cls": cls, "cfg": {"track": i % 5 == 0, "reuse": i % 3 == 0}, "len": lens[i % len(lens)]})
+            # half of the downsize() calls come as a burst: [everything about e] downsize(), ONE small question, everything about e
+            jobs.append({"cls": cls, "cfg": {"track": i % 5 == 0, "reuse": i % 3 == 0}, "len": lens[i % len(lens)],
+                         "gen": {"weights": WEIGHTS, "after_downsize": 0.6}})
+    return jobs
+
+
+def directed_jobs(ctx, mult=1):
+    """range constraints on a variable, EVERYTHING asked about expressions over it (all values, extrema), downsize(), one small
+    question, everything again; random tail"""
+    jobs = []
+    for cls, k in {"Solver": ctx.pick(24, 160), "SolverCacheless": ctx.pick(6, 40), "SolverStrings": ctx.pick(8, 60)}.items():
+        for i in range(k * mult):
+            jobs.append({"cls": cls, "cfg": {"track": i % 5 == 0, "reuse": i % 3 == 0}, "len": ctx.pick(5, 20),
+                         "gen": {"shape": "exhaust-downsize", "weights": WEIGHTS, "after_downsize": 0.6}})
+    return jobs
+
+
+def lifetime_jobs(ctx, mult=1):
+    """solver lifetimes (oracle only): two or three UNRELATED solvers with constraints of their own on one variable; round after
+    round a branch of one is made, asked at once and dropped (garbage), then a branch of another one is made and asked at once -
+    mostly with the one Z3 solver per thread shared by all frontends (reuse_z3_solver), where `whose constraints does it hold
+    now` is the whole question"""
+    jobs = []
+    for cls in CLASSES:
+        for i in range(ctx.pick(8, 60) * mult):
+            jobs.append({"cls": cls, "cfg": {"track": i % 7 == 3, "reuse": i % 4 != 3}, "len": ctx.pick(0, 8),
+                         "gen": {"shape": "lifetimes", "max_solvers": 40}})
     return jobs
 
 
@@ -149,7 +189,10 @@ def run(ctx):
     ]
     ctx.cov["rule"] = ("histories over 4 variables (x:4 bits, y:3, z:3, b:Bool; 2048 assignments), 24 constraints, 9 expressions; streams: "
                        "rule-directed (one per cache arm / repaired defect, x3 configurations x3 classes), random (length up to 30 quick / 200 "
-                       "thorough, up to 4 branches), bounded-exhaustive (all histories of length <=2 quick / <=3 thorough over a 28-call menu); "
+                       "thorough, up to 4 branches; half of the downsize() calls as a burst `everything about e, downsize(), one small question, "
+                       "everything about e`), directed openings (range constraints, everything asked, downsize(), one small question, everything "
+                       "again; random tail), solver lifetimes (oracle only: unrelated solvers, branches made, asked at once and dropped, "
+                       "reuse_z3_solver mostly on), bounded-exhaustive (all histories of length <=2 quick / <=3 thorough over a 28-call menu); "
                        "non-trivial = history with >= 3 calls; distinct = digest of (class, config, history)")
     # 1. translate
     tie_ok = True
@@ -167,7 +210,8 @@ def run(ctx):
     # 3 + 4. correspondence and oracle
     workers = ctx.pick(4, 6)
     all_fails, mism = [], []
-    for stream, jobs in (("rule-directed", rule_jobs()), ("random", random_jobs(ctx)), ("bounded-exhaustive", exhaustive_jobs(ctx))):
+    for stream, jobs in (("rule-directed", rule_jobs()), ("random", random_jobs(ctx)), ("directed-openings", directed_jobs(ctx)),
+                         ("bounded-exhaustive", exhaustive_jobs(ctx))):
         m = SC.run_jobs(ctx, jobs, workers, corr=True, chunk_size=ctx.pick(12, 20) if stream != "bounded-exhaustive" else 200)
         SC.merge_cov(ctx, m, stream)
         all_fails += m["fails"]
@@ -180,6 +224,9 @@ def run(ctx):
                            "/".join(mm["differs"]), mm["op"], mm["cls"], mm["cfg"], mm["model"][:400], mm["real"][:400]))
     if mism:
         ctx.cov["first_disagreeing_history"] = mism[0]["hist"]
+    m = SC.run_jobs(ctx, lifetime_jobs(ctx), workers, corr=False, chunk_size=ctx.pick(6, 20))
+    SC.merge_cov(ctx, m, "solver-lifetimes(oracle only)")
+    all_fails += m["fails"]
     # 5. broken proof/tie: more failing-input search on the real code (oracle only, no recorder)
     if ctx.broken and not all_fails:
         m = SC.run_jobs(ctx, random_jobs(ctx, mult=3), workers, corr=False, chunk_size=30)
